@@ -1,7 +1,7 @@
 import FlatccModel.Util
 import FlatccModel.Num
 import FlatccModel.ScanSwap
-import FlatccModel.Refmap
+import FlatccModel.RefmapFault
 import FlatccModel.Reader
 import FlatccModel.Ident
 import FlatccModel.Emitter
@@ -110,20 +110,24 @@ def refmapOp (args : List String) : String :=
   match args with
   | [opsS] =>
     let toks := if opsS == "_" then [] else opsS.splitOn ","
-    let ops : List Op := toks.map (fun t =>
+    -- a leading `X` = the allocator refuses every request made during this call
+    let ops : List (Op × Bool) := toks.map (fun t0 =>
+      let ok := !t0.startsWith "X"
+      let t := if ok then t0 else (t0.drop 1).toString
       let body := (t.drop 1).toString
-      if t.startsWith "i" then
+      (if t.startsWith "i" then
         match body.splitOn ":" with
         | [k, r] => Op.ins (natArg k) (intArg r)
         | _ => Op.clr
       else if t.startsWith "f" then Op.fnd (natArg body)
       else if t.startsWith "r" then Op.rsz (natArg body)
-      else if t == "R" then Op.rst else Op.clr)
+      else if t == "R" then Op.rst else Op.clr, ok))
     -- run, collecting outputs, checking the invariant and the abstract spec after every step
-    let (m, outs, invAll, specAll, _) := ops.foldl (fun (acc : Map × List String × Bool × Bool × List Op) op =>
+    let (m, outs, invAll, specAll, _) := ops.foldl (fun (acc : Map × List String × Bool × Bool × List Op) opk =>
       let (m, outs, iv, sp, hist) := acc
-      let (m', r) := step murmur m op
-      let hist' := op :: hist
+      let op := opk.1
+      let (m', r) := stepF murmur m op opk.2
+      let hist' := effective m op opk.2 :: hist
       let spOk := match op with
         | .fnd k => r == spec hist k
         | _ => true
